@@ -140,7 +140,7 @@ Inductive action :=
 | ArriveRegister (r : Z)
 | ArrivePush (r : Z)
 | TickPop
-| TickDecide (admit : bool)
+| TickDecide (granted : bool)
 | TtlFire (now r : Z)
 | TtlScan (now : Z)
 | WaiterReturn (r : Z)
@@ -208,12 +208,12 @@ Definition tick_pop (s : state) : state :=
       end
   end.
 
-Definition tick_decide (c : cfg) (s : state) (admit : bool) : state :=
+Definition tick_decide (c : cfg) (s : state) (granted : bool) : state :=
   match held s with
   | None => s
   | Some r =>
       let i := info s r in
-      if admit
+      if granted
       then {| info := upd (info s) r (signal i Success);
               heap := heap s; watch := watch s; count := count s; next_stamp := next_stamp s;
               held := None; drained := drained s; checked := checked s; admits := r :: admits s |}
